@@ -48,6 +48,7 @@ fn hdr_refill<const BUF: usize, const PER: usize, const CAP: usize>() {
     }
     let src = Drip { data: win, pos: BUF, per: PER };
     let mut it: TagIterator<Drip, FlatTag> = TagIterator::with_capacity(src, &[], 0);
+    it.set_max_allowable_tag_size(None);
     it.verif_set_buffer(Box::new(b), BUF, 0, Some(0));
     let want = ref_header(&win, WIN);
     kani::cover!(matches!(want, RefHeader::Ok { id_len: 1, size_len: 8, .. }), "9-byte header (1-byte id, 8-byte size field) reached");
